@@ -239,7 +239,7 @@ def helpers(chk, P):
 
 def dae_steps(chk, P, summ):
     fns = [f for f in P.all_fns() if f.name.endswith("::attemptDAEStep")]
-    chk.judge(len(fns) == 5, "ORDER", "attemptDAEStep-bodies=5", "", "default + ExplicitEuler + SemiExplicitEuler + SemiExplicitEuler2 + Verlet (found %d)" % len(fns))
+    chk.shape(len(fns) >= 5, "ORDER", "attemptDAEStep-bodies=5", "", "default + ExplicitEuler + SemiExplicitEuler + SemiExplicitEuler2 + Verlet (found %d)" % len(fns))
     for f in sorted(fns, key=lambda f: f.id):
         sv = statevars_of(f)
         chk.require(bool(sv), "no advanced-state variable found in " + f.id)
@@ -274,7 +274,7 @@ def dae_steps(chk, P, summ):
 
 def ode_steps(chk, P, summ):
     fns = [f for f in P.all_fns() if f.name.endswith("::attemptODEStep")]
-    chk.judge(len(fns) >= 4, "ORDER", "attemptODEStep-bodies>=4", "", "RK2, RK3, RKF, RKM (found %d)" % len(fns))
+    chk.shape(len(fns) >= 4, "ORDER", "attemptODEStep-bodies>=4", "", "RK2, RK3, RKF, RKM (found %d)" % len(fns))
     for f in sorted(fns, key=lambda f: f.id):
         # raw writes of the advanced state are not allowed: only through the setAdvancedStateAndRealize* helpers
         sv = statevars_of(f) | {"advancedState"}
@@ -312,7 +312,7 @@ def ode_steps(chk, P, summ):
 def interpolation(chk, P, summ):
     for short, floor in (("createInterpolatedState", 5), ("backUpAdvancedStateByInterpolation", 4)):
         fns = [f for f in P.all_fns() if f.name.endswith("::" + short) and f.cls != IR]
-        chk.judge(len(fns) >= floor, "ORDER", "%s-bodies>=%d" % (short, floor), "", "found %d" % len(fns))
+        chk.shape(len(fns) >= floor, "ORDER", "%s-bodies>=%d" % (short, floor), "", "found %d" % len(fns))
         for f in sorted(fns, key=lambda f: f.id):
             sv = statevars_of(f)
             if short == "createInterpolatedState":
@@ -383,12 +383,12 @@ def all_writers(chk, P, summ):
         chk.judge(not bad, "ORDER", f.name + ":advanced-state-writes-projected", f.loc,
                   "%s overwrites the advanced state and can return without the prescribe/realize/project pipeline (reached only %s)" %
                   (short, [PIPE[:x[1]] for x in bad][:1]), bad[0][2] if bad else None)
-    chk.judge(n >= 1, "ORDER", "advanced-state-writers-found", "", "other writers of the advanced state examined: %d" % n)
+    chk.shape(n >= 1, "ORDER", "advanced-state-writers-found", "", "other writers of the advanced state examined: %d" % n)
 
 
 def cpodes(chk, P, summ):
     cands = [f for f in P.all_fns() if f.name.endswith("CPodesSystemImpl::project")]
-    chk.judge(len(cands) == 1, "ORDER", "CPodes:project-callback", "", "CPodes projection callback found")
+    chk.shape(len(cands) == 1, "ORDER", "CPodes:project-callback", "", "CPodes projection callback found")
     for f in cands:
         sv = statevars_of(f)
         pipe = Pipe(P, f, sv, summ)
